@@ -35,7 +35,7 @@ struct Budget {
     connects: u8,
 }
 
-pub const N_SCENARIOS: u8 = 8;
+pub const N_SCENARIOS: u8 = 16;
 
 struct Scenario {
     name: &'static str,
@@ -103,12 +103,68 @@ fn scenario(k: u8) -> Scenario {
             late_worker: 1,
             budget: b(1, 1, 1, 0, 0),
         },
-        _ => Scenario {
+        7 => Scenario {
             name: "production prefill thresholds, one 4-cpu worker and one 1-cpu worker, array of three 2-cpu tasks and two 1-cpu tasks; one loss, one cancel",
             prefill: None,
             workers: &[0, 3],
             late_worker: 3,
             budget: b(1, 1, 0, 1, 0),
+        },
+        8 => Scenario {
+            name: "worker with 2x4 cpus + 2 gpus and a 4-cpu worker, three tasks with two variants (4 cpus | 1 cpu + 1 gpu), prefill (0,1); one loss, retract check",
+            prefill: Some((0, 1)),
+            workers: &[2, 0],
+            late_worker: 0,
+            budget: b(1, 0, 0, 1, 0),
+        },
+        9 => Scenario {
+            name: "one 4-cpu worker, an `all` task, two 2-cpu tasks and a half-cpu task, prefill (0,1); one cancel, one failure",
+            prefill: Some((0, 1)),
+            workers: &[0],
+            late_worker: 0,
+            budget: b(0, 1, 1, 0, 0),
+        },
+        10 => Scenario {
+            name: "three 2-cpu workers of one group, a 3-node task, a 2-node task and a 1-cpu task; two losses",
+            prefill: Some((0, 1)),
+            workers: &[1, 1, 1],
+            late_worker: 1,
+            budget: b(2, 0, 0, 0, 0),
+        },
+        11 => Scenario {
+            name: "2-cpu worker with a 1000 s time limit and a 4-cpu worker, two tasks with min-time 300 s and two plain 1-cpu tasks; one loss, late worker",
+            prefill: Some((0, 1)),
+            workers: &[6, 0],
+            late_worker: 6,
+            budget: b(1, 0, 0, 0, 1),
+        },
+        12 => Scenario {
+            name: "one 2-cpu worker, graph with a repeated dependency and a diamond (t0 -> t1, t0 -> t2, {t1,t2,t1} -> t3), never-restart tasks; one loss, one failure, late worker",
+            prefill: Some((0, 1)),
+            workers: &[1],
+            late_worker: 1,
+            budget: b(1, 0, 1, 0, 1),
+        },
+        13 => Scenario {
+            name: "two 1-cpu workers, job with max-fails 0 of three tasks and a second job of two tasks, prefill (0,1); two failures, one cancel",
+            prefill: Some((0, 1)),
+            workers: &[3, 3],
+            late_worker: 3,
+            budget: b(0, 1, 2, 0, 0),
+        },
+        14 => Scenario {
+            name: "4-cpu + mem worker and a 4-cpu worker, two cpu+mem tasks, two scatter tasks, one 1.5-cpu task, production prefill; one loss, one cancel, retract check",
+            prefill: None,
+            workers: &[4, 0],
+            late_worker: 0,
+            budget: b(1, 1, 0, 1, 0),
+        },
+        _ => Scenario {
+            name: "two 2-cpu workers in different groups, a 2-node task (cannot run), two 1-cpu tasks of lower priority, a late worker of group a; one loss, one cancel",
+            prefill: Some((0, 1)),
+            workers: &[1, 6],
+            late_worker: 1,
+            budget: b(1, 1, 0, 0, 1),
         },
     }
 }
@@ -189,10 +245,71 @@ async fn setup(k: u8) -> (Sim, Budget) {
             let r = palette::array_submit(Some(JobId::new(1)), palette::int_array(&[0, 1, 2]), None, palette::request(0), d(0, 0), Some(1), "a");
             submit(&mut sim, r).await;
         }
-        _ => {
+        7 => {
             let r = palette::array_submit(None, palette::int_array(&[0, 1, 2]), None, palette::request(1), d(0, 0), None, "two");
             submit(&mut sim, r).await;
             let r = palette::array_submit(None, palette::int_array(&[0, 1]), None, palette::request(0), d(1, 0), None, "one");
+            submit(&mut sim, r).await;
+        }
+        8 => {
+            let r = palette::array_submit(None, palette::int_array(&[0, 1, 2]), None, palette::request(7), d(0, 0), None, "var");
+            submit(&mut sim, r).await;
+        }
+        9 => {
+            let r = palette::array_submit(None, palette::int_array(&[0]), None, palette::request(5), d(1, 0), None, "all");
+            submit(&mut sim, r).await;
+            let r = palette::array_submit(None, palette::int_array(&[0, 1]), None, palette::request(1), d(0, 0), None, "two");
+            submit(&mut sim, r).await;
+            let r = palette::array_submit(None, palette::int_array(&[0]), None, palette::request(3), d(5, 0), None, "half");
+            submit(&mut sim, r).await;
+        }
+        10 => {
+            let r = palette::array_submit(None, palette::int_array(&[0]), None, palette::request(9), d(1, 0), None, "mn3");
+            submit(&mut sim, r).await;
+            let r = palette::array_submit(None, palette::int_array(&[0]), None, palette::request(8), d(0, 0), None, "mn2");
+            submit(&mut sim, r).await;
+            let r = palette::array_submit(None, palette::int_array(&[0]), None, palette::request(0), d(0, 0), None, "sn");
+            submit(&mut sim, r).await;
+        }
+        11 => {
+            let r = palette::array_submit(None, palette::int_array(&[0, 1]), None, palette::request(10), d(0, 0), None, "mintime");
+            submit(&mut sim, r).await;
+            let r = palette::array_submit(None, palette::int_array(&[0, 1]), None, palette::request(0), d(0, 0), None, "plain");
+            submit(&mut sim, r).await;
+        }
+        12 => {
+            let r = palette::graph_submit(
+                None,
+                vec![palette::request(0)],
+                vec![
+                    (0, 0, d(0, 1), vec![]),
+                    (1, 0, d(0, 1), vec![0]),
+                    (2, 0, d(1, 1), vec![0]),
+                    (3, 0, d(0, 1), vec![1, 2, 1]),
+                ],
+                None,
+                "g",
+            );
+            submit(&mut sim, r).await;
+        }
+        13 => {
+            let r = palette::array_submit(None, palette::int_array(&[0, 1, 2]), None, palette::request(0), d(0, 0), Some(0), "mf");
+            submit(&mut sim, r).await;
+            let r = palette::array_submit(None, palette::int_array(&[0, 1]), None, palette::request(0), d(0, 0), None, "other");
+            submit(&mut sim, r).await;
+        }
+        14 => {
+            let r = palette::array_submit(None, palette::int_array(&[0, 1]), None, palette::request(6), d(0, 0), None, "mem");
+            submit(&mut sim, r).await;
+            let r = palette::array_submit(None, palette::int_array(&[0, 1]), None, palette::request(11), d(0, 0), None, "scatter");
+            submit(&mut sim, r).await;
+            let r = palette::array_submit(None, palette::int_array(&[0]), None, palette::request(13), d(1, 0), None, "frac");
+            submit(&mut sim, r).await;
+        }
+        _ => {
+            let r = palette::array_submit(None, palette::int_array(&[0]), None, palette::request(8), d(5, 0), None, "mn2");
+            submit(&mut sim, r).await;
+            let r = palette::array_submit(None, palette::int_array(&[0, 1]), None, palette::request(0), d(0, 0), None, "sn");
             submit(&mut sim, r).await;
         }
     }
